@@ -1,5 +1,7 @@
 """C39 Fluent operator methods equal their piped operators."""
 import inspect
+import signal
+import time
 
 import reactivex.operators as ops_mod
 from reactivex import Observable
@@ -7,7 +9,7 @@ from reactivex.observable import mixins
 
 from props.c44 import Captured, Hole
 from simlib import catalog, pipe, vt
-from simlib.core import Outcome
+from simlib.core import Hang, Outcome
 
 
 def fluent_methods():
@@ -89,10 +91,11 @@ class Prop:
     engine = "VT"
     quick_runs = 50000
     thorough_runs = 1000000
+    run_wall = 6.0
     rule = ("seeded pipelines (depth 1-3) are built twice on twin worlds with identical timelines: once through the catalogue's piped form "
             "source.pipe(ops.name(args)) and once by calling the same-named fluent method source.name(args) with the very same argument "
             "objects (the piped build is recorded call by call and replayed as method calls); recorded notifications (inner observables "
-            "recursively, values and virtual times) and all source subscription logs must be equal. %d public mixin methods found by "
+            "recursively, values and virtual times) and all source subscription logs must be equal; a fluent form that does not finish where the piped form did (wall watchdog) differs too. %d public mixin methods found by "
             "introspection; methods never exercised are listed in the evidence as uncovered. Distinct = (operators, root kinds); "
             "non-trivial = at least one fluent method used and one notification seen.") % len(FLUENT)
     assumptions = ["mostly seeded program/input generation; the simulated dimension is the shared virtual timeline",
@@ -108,9 +111,20 @@ class Prop:
     def execute(self, sc):
         out = Outcome()
         used = []
-        a = pipe.Run(sc)
-        b = pipe.Run(sc, build=lambda w, node: build_fluent(w, node, used))
         ops = catalog.ops_of(sc["program"])
+        t0 = time.time()
+        a = pipe.Run(sc)
+        ta = time.time() - t0
+        signal.setitimer(signal.ITIMER_REAL, self.run_wall)  # the fluent twin gets a full watchdog period of its own
+        try:
+            b = pipe.Run(sc, build=lambda w, node: build_fluent(w, node, used))
+        except Hang:
+            if ta > self.run_wall / 10:
+                raise  # the piped form was slow as well: a generator problem, not a difference
+            out.digest = (tuple(ops), "hang")
+            out.bad("fluent-differs", "program=%s methods=%s: the fluent form did not finish within %.0fs of wall time, the piped form took %.2fs" % (
+                ops, [n for _, n in used], self.run_wall, ta))
+            return out
         out.digest = (tuple(ops), a.rec.kinds())
         out.sim_time = 2 * sc["horizon"]
         out.evals = 2
